@@ -275,9 +275,36 @@ theorem planFiles_ok {root : Str} {mods plugs ord} {all : Files}
       cases hm : mergeFiles core pf with
       | none => simp [hm] at h
       | some a =>
-        simp only [hm, Except.ok.injEq] at h
-        subst h
-        exact ⟨core, pf, rfl, rfl, hm⟩
+        simp only [hm] at h
+        cases hc : checkPaths a with
+        | some e => simp [hc] at h
+        | none =>
+          simp only [hc, Except.ok.injEq] at h
+          subst h
+          exact ⟨core, pf, rfl, rfl, hm⟩
+
+/-- … and the complete map passed the path check. -/
+theorem planFiles_ok_paths {root : Str} {mods plugs ord} {all : Files}
+    (h : planFiles root mods plugs ord = .ok all) : checkPaths all = none := by
+  unfold planFiles at h
+  cases hg : genModules root [] mods with
+  | error e => simp [hg] at h
+  | ok core =>
+    simp only [hg] at h
+    cases hr : runPlugins plugs ord with
+    | error e => simp [hr] at h
+    | ok pf =>
+      simp only [hr] at h
+      cases hm : mergeFiles core pf with
+      | none => simp [hm] at h
+      | some a =>
+        simp only [hm] at h
+        cases hc : checkPaths a with
+        | some e => simp [hc] at h
+        | none =>
+          simp only [hc, Except.ok.injEq] at h
+          subst h
+          exact hc
 
 theorem generatePlan_ok {root out : Str} {mods plugs ord} {ws : Files}
     (h : generatePlan root out mods plugs ord = .ok ws) :
